@@ -117,6 +117,17 @@ def _build_set(spec):
         # the first caption starts at the very beginning of the programme, the next ones follow closely
         spec = spec[1:]
         t, step = 0, 1600000
+    if spec and spec[0] == "@0short":
+        # the first caption lies entirely inside the first 40 ms of the programme, the others follow as usual
+        spec = spec[1:]
+        for k, lines in enumerate(spec):
+            nodes = []
+            for i, ln in enumerate(lines):
+                if i:
+                    nodes.append(CaptionNode.create_break())
+                nodes.append(CaptionNode.create_text(ln))
+            caps.append(Caption(0, 30000, nodes) if k == 0 else Caption(4000000 * k, 4000000 * k + 1500000, nodes))
+        return CaptionSet({"en-US": caps})
     if spec and spec[0] == "@short":
         # captions away from time zero that last less than one MicroDVD frame, or nothing at all
         spec = spec[1:]
@@ -230,6 +241,8 @@ def writer_specs(tier):
             specs.append([pre, [t], ["later", "two rows"], ["last"]])
     for t in TEXT_TOKENS[:3]:
         specs.append(["@force", [t], ["second"]])
+        specs.append(["@0short", [t], ["second"]])
+    specs.append(["@0short", ["23.976"], ["second"]])
     # captions of one to nine rows
     for n in range(3, 10):
         specs.append([[f"row {k:02d} of a tall caption" for k in range(n)]])
